@@ -453,6 +453,13 @@ func (rn *runner) judge(idx int, st *stackCfg, up *upCfg, o *obs, rq wreq, res *
 	if o.Adv != nil && o.Hit {
 		advDesc = fmt.Sprintf("%s/%d/%d/pre%d/%s", o.Adv.Hdr, o.Adv.Mask, o.Adv.Status, o.Adv.Pre, o.Adv.Net)
 		rep.Count("upstream_hdr_mode_"+o.Adv.Hdr+"_chain_"+up.Chain, 1)
+		if o.Adv.Huge {
+			rep.Count("upstream_huge_header_block", 1)
+		}
+		if o.Adv.Net != "" {
+			rep.Count("upstream_net_"+o.Adv.Net, 1)
+		}
+		rep.Count(fmt.Sprintf("upstream_status_%d", o.Adv.Status), 1)
 	}
 	rep.Distinct(strings.Join([]string{st.Kind, fmt.Sprint(st.Secure, st.Domain != "", st.HTTPOnly), up.Name, up.Chain, o.Scenario, o.Step, o.Fine, rq.Method, o.XFP, advDesc, fmt.Sprint(o.XHR)}, "|"))
 	if idx%397 == 0 {
@@ -502,6 +509,11 @@ func (rn *runner) judge(idx int, st *stackCfg, up *upCfg, o *obs, rq wreq, res *
 					// docs: header_overrides may override HSTS; statement: the proxy's own value. Either is accepted.
 					want = append(want, ov)
 					rep.Count("dontcare_hsts_value_with_configured_override", 1)
+					if v := w.values(hSTS); len(v) > 0 && v[0] == ov {
+						rep.Count("dontcare_hsts_override_honoured", 1)
+					} else if len(v) > 0 && v[0] == st.learned[hSTS] {
+						rep.Count("dontcare_hsts_override_not_honoured_proxy_value_sent", 1)
+					}
 				}
 				rn.headerVerdict(idx, o, w, hSTS, want, chain, class, false)
 			}
